@@ -18,6 +18,36 @@ import json as _j
 _j.dump(_j.load(open('/verif/known_findings.json'))+_j.load(open('/verif/sim/worlds/daemon/PROPOSED_FINDINGS.json')),open('/var/tmp/w2sens/known.json','w'))  # def _known
 import sys,os,subprocess,shutil,json,time
 muts={
+ 'N1-gc-collects-notready-sandbox-of-pod-with-running-containers':('C17','pkg/gc/flannel_gc.go',"""					if status.State.Waiting != nil || status.State.Running != nil {
+						return false
+					}""","""					if status.State.Waiting != nil && status.State.Running != nil {
+						return false
+					}"""),
+ 'N2-veth-collector-skips-inspect':('C17','pkg/gc/flannel_gc.go',"		if gc.shouldCleanup(cid) {\n			if err = netlink.LinkDel(link)","		if cid != \"\" {\n			if err = netlink.LinkDel(link)"),
+ 'N3-veth-collector-ignores-link-type':('C17','pkg/gc/flannel_gc.go',"""		if link.Type() != "veth" {
+			continue
+		}""","""		if link.Type() == "" {
+			continue
+		}"""),
+ 'N4-veth-collector-accepts-only-two-part-names':('C17','pkg/gc/flannel_gc.go',"		if len(parts) == 1 || len(parts) == 2 {","		if len(parts) == 2 {"),
+ 'N5-start-skips-rules-of-pod-whose-port-is-taken':('C14','pkg/galaxy/server.go',"""			glog.Warning(err)
+		}
+		allPorts = append(allPorts, ports...)""","""			glog.Warning(err)
+			continue
+		}
+		allPorts = append(allPorts, ports...)"""),
+ 'N6-failed-port-setup-not-cleaned-up':('C14','pkg/galaxy/server.go',"""				if err != nil {
+					g.cleanupPortMapping(req)
+					return
+				}""","""				if err != nil {
+					return
+				}"""),
+ 'N7-unusable-result-reported-as-success':('C12','pkg/galaxy/server.go',"""			if err2 != nil {
+				err = err2
+			} else {""","""			if err2 != nil {
+				err = nil
+			} else {"""),
+
  'M14-closehostports-drops-lock-while-closing':('C14','pkg/network/portmapping/portmapping.go',"""	h.Lock()
 	defer h.Unlock()
 	// In case of kubelet restart, the port should have been closed
